@@ -44,8 +44,38 @@ func splitKey(k string) (prefix, suffix string) {
 	return k, ""
 }
 
+// kcmp is the key order of the model, written out independently of testkeys.Comparer (and without
+// allocations): prefix bytewise; the bare prefix first; then LARGER numeric suffix first.
+// selfCheckKeyOrder pins it to the comparer on all keys the harness uses.
+func kcmp(a, b string) int {
+	ap, as := splitKey(a)
+	bp, bs := splitKey(b)
+	if c := strings.Compare(ap, bp); c != 0 {
+		return c
+	}
+	switch {
+	case as == bs:
+		return 0
+	case as == "":
+		return -1
+	case bs == "":
+		return +1
+	}
+	x, y := sufNum(as), sufNum(bs)
+	switch {
+	case x > y:
+		return -1
+	case x < y:
+		return +1
+	}
+	return 0
+}
+
 // sufNum is the numeric value of a testkeys suffix; independent of the comparer on purpose.
 func sufNum(s string) int {
+	if len(s) == 2 && s[0] == '@' && s[1] >= '0' && s[1] <= '9' {
+		return int(s[1] - '0')
+	}
 	n, err := strconv.Atoi(strings.TrimPrefix(s, "@"))
 	if err != nil {
 		panic("bad suffix " + s)
@@ -63,7 +93,7 @@ func hidden(m *hx.Model, key, mask string) bool {
 		return false
 	}
 	for i := 0; i+1 < len(m.Bounds); i++ {
-		if hx.Cmp(m.Bounds[i], key) <= 0 && hx.Cmp(key, m.Bounds[i+1]) < 0 {
+		if kcmp(m.Bounds[i], key) <= 0 && kcmp(key, m.Bounds[i+1]) < 0 {
 			for r := range m.RK[i] {
 				if sufNum(mask) >= sufNum(r) && sufNum(r) > sufNum(p) {
 					return true
@@ -97,17 +127,17 @@ func (v *view) finish() {
 			v.keys = append(v.keys, s.Start)
 		}
 	}
-	sort.Slice(v.keys, func(i, j int) bool { return hx.Cmp(v.keys[i], v.keys[j]) < 0 })
+	sort.Slice(v.keys, func(i, j int) bool { return kcmp(v.keys[i], v.keys[j]) < 0 })
 }
 
 func buildView(m *hx.Model, ic IterCfg) *view {
 	v := &view{spans: m.Spans(ic.Lower, ic.Upper)}
 	if !ic.Ranges {
 		for _, p := range m.Points() {
-			if ic.Lower != "" && hx.Cmp(p.K, ic.Lower) < 0 {
+			if ic.Lower != "" && kcmp(p.K, ic.Lower) < 0 {
 				continue
 			}
-			if ic.Upper != "" && hx.Cmp(p.K, ic.Upper) >= 0 {
+			if ic.Upper != "" && kcmp(p.K, ic.Upper) >= 0 {
 				continue
 			}
 			if hidden(m, p.K, ic.Mask) {
@@ -131,13 +161,13 @@ func (v *view) prefixView(prefix string) *view {
 	}
 	for _, s := range v.spans {
 		st, en := s.Start, s.End
-		if hx.Cmp(st, lo) < 0 {
+		if kcmp(st, lo) < 0 {
 			st = lo
 		}
-		if hx.Cmp(en, hi) > 0 {
+		if kcmp(en, hi) > 0 {
 			en = hi
 		}
-		if hx.Cmp(st, en) < 0 {
+		if kcmp(st, en) < 0 {
 			w.spans = append(w.spans, hx.Span{Start: st, End: en, Keys: s.Keys})
 		}
 	}
@@ -147,7 +177,7 @@ func (v *view) prefixView(prefix string) *view {
 
 func (v *view) spanAt(k string) *hx.Span {
 	for i := range v.spans {
-		if hx.Cmp(v.spans[i].Start, k) <= 0 && hx.Cmp(k, v.spans[i].End) < 0 {
+		if kcmp(v.spans[i].Start, k) <= 0 && kcmp(k, v.spans[i].End) < 0 {
 			return &v.spans[i]
 		}
 	}
@@ -262,7 +292,7 @@ func (m *miter) at(k string, ok bool, dir int) Obs {
 
 func (m *miter) firstGE(k string) (string, bool) {
 	for _, p := range m.cur.keys {
-		if hx.Cmp(p, k) >= 0 {
+		if kcmp(p, k) >= 0 {
 			return p, true
 		}
 	}
@@ -271,7 +301,7 @@ func (m *miter) firstGE(k string) (string, bool) {
 
 func (m *miter) firstGT(k string) (string, bool) {
 	for _, p := range m.cur.keys {
-		if hx.Cmp(p, k) > 0 {
+		if kcmp(p, k) > 0 {
 			return p, true
 		}
 	}
@@ -280,7 +310,7 @@ func (m *miter) firstGT(k string) (string, bool) {
 
 func (m *miter) lastLT(k string) (string, bool) {
 	for i := len(m.cur.keys) - 1; i >= 0; i-- {
-		if hx.Cmp(m.cur.keys[i], k) < 0 {
+		if kcmp(m.cur.keys[i], k) < 0 {
 			return m.cur.keys[i], true
 		}
 	}
@@ -288,10 +318,10 @@ func (m *miter) lastLT(k string) (string, bool) {
 }
 
 func (m *miter) seekGE(k string) Obs {
-	if m.ic.Lower != "" && hx.Cmp(k, m.ic.Lower) < 0 {
+	if m.ic.Lower != "" && kcmp(k, m.ic.Lower) < 0 {
 		k = m.ic.Lower
 	}
-	if m.ic.Upper != "" && hx.Cmp(k, m.ic.Upper) >= 0 {
+	if m.ic.Upper != "" && kcmp(k, m.ic.Upper) >= 0 {
 		return m.at("", false, +1)
 	}
 	if m.cur.spanAt(k) != nil {
@@ -323,17 +353,17 @@ func (m *miter) step(op IOp) (o Obs, defined bool) {
 	case "SeekLT":
 		m.prefix, m.cur = false, m.base
 		k := op.Key
-		if m.ic.Upper != "" && hx.Cmp(k, m.ic.Upper) > 0 {
+		if m.ic.Upper != "" && kcmp(k, m.ic.Upper) > 0 {
 			k = m.ic.Upper
 		}
 		p, ok := m.lastLT(k)
 		return m.at(p, ok, -1), true
 	case "SeekPrefixGE":
 		// keys outside the bounds give an error or a clamped seek (Appendix A); not generated.
-		if m.ic.Lower != "" && hx.Cmp(op.Key, m.ic.Lower) < 0 {
+		if m.ic.Lower != "" && kcmp(op.Key, m.ic.Lower) < 0 {
 			return o, false
 		}
-		if m.ic.Upper != "" && hx.Cmp(op.Key, m.ic.Upper) >= 0 {
+		if m.ic.Upper != "" && kcmp(op.Key, m.ic.Upper) >= 0 {
 			return o, false
 		}
 		pre, _ := splitKey(op.Key)
